@@ -54,8 +54,15 @@ func c13RoundTrip(r *hx.Run, tag string, p protocol.Protocol, dids []*fx.DIDOps,
 	cas := fx.NewMemCAS()
 	ver := fx.NewVersion(p, &fx.VersionOpts{CAS: cas, ParserOpts: []operationparser.Option{operationparser.WithAnchorTimeValidator(expiryValidator{})}})
 	var queued []*operation.QueuedOperation
+	queuedBefore := map[int]bool{}
 	for _, q := range seq {
-		queued = append(queued, dids[q.did].Queued(q.key, ns))
+		// a further operation of a DID is queued under an alias of the namespace: "one operation per suffix" is about the suffix
+		qns := ns
+		if queuedBefore[q.did] {
+			qns = "did:alias"
+		}
+		queuedBefore[q.did] = true
+		queued = append(queued, dids[q.did].Queued(q.key, qns))
 	}
 	// expected partition
 	type exp struct {
